@@ -70,6 +70,10 @@ def build_1d(job):
     qc = None if job.get("qcalc") is None else np.asarray(job["qcalc"], dtype="d")
     cls = job["cls"]
     if cls == "pinhole":
+        if job.get("nsigma") is not None:
+            ns = job["nsigma"]
+            ns = tuple(ns) if isinstance(ns, (list, tuple)) else float(ns)
+            return resolution.Pinhole1D(q, np.asarray(job["sigma"], dtype="d"), q_calc=qc, nsigma=ns)
         return resolution.Pinhole1D(q, np.asarray(job["sigma"], dtype="d"), q_calc=qc)
     if cls == "slit":
         return resolution.Slit1D(q, q_length=as_width(job.get("L"), len(q)),
@@ -111,6 +115,9 @@ def op_res1d(job):
           "W": per_point(job.get("W"), n) if job["cls"] == "slit" else [],
           "raised": False, "error": "", "qcalc": [], "haverows": False, "off": [], "rows": [],
           "probes": []}
+    ns = job.get("nsigma")
+    ev["nsig"] = (["2.5", "3.0"] if ns is None else [fstr(ns[0]), fstr(ns[1])] if isinstance(ns, (list, tuple))
+                  else [fstr(ns), fstr(ns)])
     try:
         res = build_1d(job)
         qc = np.asarray(res.q_calc, dtype="d")
